@@ -19,7 +19,7 @@ open UvModel.HandleKernels
 def hp (h : Handle) : Nat × List Nat × List (Nat × Int) × Option Nat := (h.id, h.wq, h.wcq, h.connReq)
 
 def rq (s : State) :=
-  (s.ar, s.reqs, s.nextReq, s.running, s.poolQ, s.doneQ, s.doneLocal, s.handles.map hp)
+  (s.ar, s.reqs, s.nextReq, s.running, s.poolQ, s.doneQ, s.doneLocal, s.ringQ, s.handles.map hp)
 
 /-- occurrences of request `x` as first component -/
 def cp {β : Type} (x : Nat) (l : List (Nat × β)) : Nat := l.countP (·.1 == x)
@@ -32,7 +32,7 @@ def hcnt (e : Option Nat) (x : Nat) : List Handle → Nat
   | h :: t => if e = some h.id then hcW x h + hcnt none x t else hcW x h + hcC x h + hcnt e x t
 
 def wcnt (x : Nat) (s : State) : Nat :=
-  (if s.running = some x then 1 else 0) + s.poolQ.count x + cp x s.doneQ + cp x s.doneLocal
+  (if s.running = some x then 1 else 0) + s.poolQ.count x + cp x s.doneQ + cp x s.doneLocal + s.ringQ.count x
 
 def cnt (e : Option Nat) (x : Nat) (s : State) : Nat := wcnt x s + hcnt e x s.handles
 def idc (x : Nat) (s : State) : Nat := s.reqs.countP (·.id == x)
@@ -59,8 +59,8 @@ theorem hcnt_congr {hs hs' : List Handle} (h : hs.map hp = hs'.map hp) (e : Opti
 
 theorem cnt_of_rq {s s' : State} (h : rq s' = rq s) (e : Option Nat) (x : Nat) : cnt e x s' = cnt e x s := by
   simp only [rq, Prod.mk.injEq] at h
-  obtain ⟨_, _, _, h4, h5, h6, h7, h8⟩ := h
-  simp only [cnt, wcnt, h4, h5, h6, h7, hcnt_congr h8]
+  obtain ⟨_, _, _, h4, h5, h6, h7, h7', h8⟩ := h
+  simp only [cnt, wcnt, h4, h5, h6, h7, h7', hcnt_congr h8]
 
 theorem RLe.refl (s : State) : RLe s s := ⟨rfl, rfl, rfl, fun _ _ => Nat.le_refl _⟩
 theorem RLe.trans {a b c : State} (h1 : RLe a b) (h2 : RLe b c) : RLe a c :=
@@ -580,28 +580,97 @@ theorem pipeConnectBad_rinv {e : Option Nat} (s : State) (id : Nat) (hi : RInv e
       simp only [hx, if_false] at this ⊢
       split at this <;> simp [h3] at this <;> omega
 
-theorem workSubmit_rinv {e : Option Nat} (s : State) (hi : RInv e s) : RInv e (workSubmit s) := by
-  have h1 : (workSubmit s).ar = reqRegister s.ar := by unfold workSubmit; simp only; split <;> rfl
-  have h2 : (workSubmit s).reqs = s.reqs ++ [({ id := s.nextReq, kind := .work } : Req)] := by
-    unfold workSubmit; simp only; split <;> rfl
-  have h3 : (workSubmit s).nextReq = s.nextReq + 1 := by unfold workSubmit; simp only; split <;> rfl
-  refine RInv.register .work hi h1 h2 h3 ?_
+theorem workSubmit_rinv {e : Option Nat} (s : State) (api : Api) (hi : RInv e s) : RInv e (workSubmit s api) := by
+  have h1 : (workSubmit s api).ar = reqRegister s.ar := by
+    unfold workSubmit; simp only; split
+    · split
+      · rfl
+      · have := rq_asyncSend { s with ar := reqRegister s.ar, reqs := s.reqs ++ [({ id := s.nextReq, kind := .work api } : Req)], nextReq := s.nextReq + 1, doneQ := s.doneQ ++ [(s.nextReq, false)] } 1
+        simp only [rq, Prod.mk.injEq] at this; exact this.1
+    · rfl
+  have h2 : (workSubmit s api).reqs = s.reqs ++ [({ id := s.nextReq, kind := .work api } : Req)] := by
+    unfold workSubmit; simp only; split
+    · split
+      · rfl
+      · have := rq_asyncSend { s with ar := reqRegister s.ar, reqs := s.reqs ++ [({ id := s.nextReq, kind := .work api } : Req)], nextReq := s.nextReq + 1, doneQ := s.doneQ ++ [(s.nextReq, false)] } 1
+        simp only [rq, Prod.mk.injEq] at this; exact this.2.1
+    · rfl
+  have h3 : (workSubmit s api).nextReq = s.nextReq + 1 := by
+    unfold workSubmit; simp only; split
+    · split
+      · rfl
+      · have := rq_asyncSend { s with ar := reqRegister s.ar, reqs := s.reqs ++ [({ id := s.nextReq, kind := .work api } : Req)], nextReq := s.nextReq + 1, doneQ := s.doneQ ++ [(s.nextReq, false)] } 1
+        simp only [rq, Prod.mk.injEq] at this; exact this.2.2.1
+    · rfl
+  refine RInv.register (.work api) hi h1 h2 h3 ?_
   intro x
   unfold workSubmit
   simp only
   split
   · rename_i hr
-    simp only [cnt, wcnt, hr]
-    by_cases hx : x = s.nextReq
-    · simp [hx]; omega
-    · have : ¬ (s.nextReq = x) := by omega
-      simp [hx, this]
+    split
+    · simp only [cnt, wcnt, hr]
+      by_cases hx : x = s.nextReq
+      · simp [hx]; omega
+      · have : ¬ (s.nextReq = x) := by omega
+        simp [hx, this]
+    · rw [cnt_of_rq (rq_asyncSend _ 1)]
+      simp only [cnt, wcnt, hr, cp_append, cp_cons]
+      by_cases hx : x = s.nextReq
+      · simp [hx, cp]; omega
+      · have h' : ¬ (s.nextReq = x) := by omega
+        simp [hx, h', cp]
   · rename_i hr
     simp only [cnt, wcnt, hr, List.count_append, List.count_cons, List.count_nil]
     by_cases hx : x = s.nextReq
     · simp [hx]; omega
     · have : (s.nextReq == x) = false := by simp; omega
       simp [hx, this]
+
+@[simp] theorem rq_ringInit (s : State) : rq (ringInit s) = rq s := by
+  unfold ringInit; split <;> rfl
+
+theorem ringSubmit_rinv {e : Option Nat} (s : State) (api : Api) (hi : RInv e s) : RInv e (ringSubmit s api) := by
+  refine RInv.register (.ring api) hi rfl rfl rfl ?_
+  intro x
+  show wcnt x (ringSubmit s api) + hcnt e x s.handles ≤ wcnt x s + hcnt e x s.handles + _
+  simp only [ringSubmit, wcnt, List.count_append, List.count_cons, List.count_nil]
+  by_cases hx : x = s.nextReq
+  · simp [hx]; omega
+  · have : (s.nextReq == x) = false := by simp; omega
+    by_cases hrn : s.running = some x <;> simp [hx, this, hrn]
+
+theorem submit_rinv {e : Option Nat} (s : State) (api : Api) (hi : RInv e s) : RInv e (submit s api) := by
+  unfold submit
+  simp only
+  have hr : RInv e (ringInit s) := RInv.of_rq (rq_ringInit s) hi
+  split
+  · split
+    · exact ringSubmit_rinv _ api hr
+    · exact workSubmit_rinv _ api hr
+  · exact workSubmit_rinv s api hi
+
+/-- uv__poll_io_uring reading the completion queue: ids move from `ringQ` to `doneLocal` -/
+theorem ringTake_rle (s : State) (cq : List Nat) : RLe s (ringTake s cq) := by
+  induction cq generalizing s with
+  | nil => exact RLe.refl _
+  | cons r t ih =>
+    rw [ringTake_cons]
+    split
+    · rename_i hc
+      refine RLe.trans ?_ (ih _)
+      refine ⟨rfl, rfl, rfl, ?_⟩
+      intro e x
+      simp only [cnt, wcnt, cp_append, cp_cons]
+      by_cases hx : x = r
+      · subst hx
+        have h2 : 0 < s.ringQ.count x := List.count_pos_iff.mpr (by simpa using hc)
+        have h1 : (s.ringQ.erase x).count x = s.ringQ.count x - 1 := List.count_erase_self
+        simp [cp, h1]; omega
+      · have h1 : (s.ringQ.erase r).count x = s.ringQ.count x := List.count_erase_of_ne hx
+        have : ¬ (r = x) := by omega
+        simp [cp, h1, this]
+    · exact ih s
 
 theorem workCancel_rle (s : State) (r : Nat) : RLe s (workCancel s r).1 := by
   unfold workCancel
@@ -689,7 +758,11 @@ theorem applyOp_rinv {e : Option Nat} (s : State) (o : Op) (hi : RInv e s) : RIn
         · exact udpSend_rinv s id hi
         · exact hill
       · exact hill
-    | work => exact workSubmit_rinv s hi
+    | work api =>
+      simp only
+      split
+      · exact hill
+      · exact submit_rinv s api hi
     | connectBad id =>
       simp only
       split
